@@ -58,6 +58,8 @@ THIRD_PARTY_PARENTS = {
 }
 
 ALIASES = {
+    "_queue.Empty": "queue.Empty",
+    "_queue.Full": "queue.Full",
     "asyncio.TimeoutError": "builtins.TimeoutError",
     "asyncio.exceptions.TimeoutError": "builtins.TimeoutError",
     "asyncio.InvalidStateError": "asyncio.exceptions.InvalidStateError",
@@ -155,8 +157,6 @@ EXT_RAISES: dict[str, tuple[str, ...]] = {
     "queue.PriorityQueue.put_nowait": ("queue.Full",),
     "queue.Queue.get_nowait": ("queue.Empty",),
     "queue.PriorityQueue.get_nowait": ("queue.Empty",),
-    "queue.Queue.task_done": (VE,),
-    "queue.PriorityQueue.task_done": (VE,),
     "asyncio.tasks.wait_for": ("builtins.TimeoutError",),
     "asyncio.wait_for": ("builtins.TimeoutError",),
     "asyncio.timeouts.timeout": ("builtins.TimeoutError",),
@@ -255,6 +255,8 @@ class Policy:
     name: str = "default"
     # discharge(func, node, class) -> reason: a source proven infeasible by another rule (listed in evidence)
     discharge: "Callable[[FuncInfo, ast.AST, str, str], str | None] | None" = None
+    # safe_site(func, site) -> reason: a call/property site proven non-raising by a flow fact (memo initialised earlier, under a fence)
+    safe_site: "Callable[[FuncInfo, Any], str | None] | None" = None
     # nonzero(func, expr) -> True when a divisor is a table constant proven non-zero
     nonzero: "Callable[[FuncInfo, ast.expr], bool] | None" = None
 
@@ -267,6 +269,19 @@ INPUT_TYPES = {
     "ramses_tx.address.Address",
 }
 INPUT_PARAM_NAMES = {"payload", "frame", "pkt_line", "raw_payload", "dtm_str", "raw_line", "dtm_pkt_line"}
+
+
+RECEIVE_MODULES = ("ramses_tx.parsers", "ramses_tx.opentherm", "ramses_tx.message", "ramses_tx.packet", "ramses_tx.frame", "ramses_tx.address", "ramses_tx.helpers")
+
+
+def _is_receive_scope(fn: FuncInfo) -> bool:
+    """Where a parameter named payload/frame/pkt_line... is received text (not an outbound frame being written)."""
+    if fn.module.name in RECEIVE_MODULES:
+        return True
+    top = fn
+    while top.parent is not None:
+        top = top.parent
+    return any(k in top.name for k in ("read", "_on_message", "_normalise", "_str", "_partition"))
 
 
 class ExcAnalysis:
@@ -709,6 +724,11 @@ class ExcAnalysis:
         f = self._f
         if site.kind == "deferred":
             return out
+        if self.policy.safe_site is not None:
+            why = self.policy.safe_site(f, site)
+            if why:
+                self.discharged.setdefault((f.qualname, "site:" + site.text[:40], site.line), why)
+                return out
         for c in site.callees:
             if c.is_async and not site.awaited:
                 continue
@@ -1174,9 +1194,10 @@ class ExcAnalysis:
         tainted: set[str] = set()
         fn: FuncInfo | None = f
         while fn is not None:
-            for a in fn.node.args.posonlyargs + fn.node.args.args + fn.node.args.kwonlyargs:
-                if a.arg in INPUT_PARAM_NAMES:
-                    tainted.add(a.arg)
+            if _is_receive_scope(fn):
+                for a in fn.node.args.posonlyargs + fn.node.args.args + fn.node.args.kwonlyargs:
+                    if a.arg in INPUT_PARAM_NAMES:
+                        tainted.add(a.arg)
             fn = fn.parent
         # a closure's parameter is tainted when its enclosing function passes a tainted argument
         if f.parent is not None:
